@@ -59,9 +59,9 @@ Definition check_q (st : state) (q : list (ts * amap)) : bool :=
   forallb (fun tq => amap_eqb (rows_of (fst tq) (st_store st)) (snd tq)) q.
 
 (* one step: the model's output and the visible part of its new state are what the implementation
-   showed.  (The environment assumptions of the theorems — [step_ok], [events_ok] — are not needed for
-   the model to run; the steps at which the implementation's environment broke them are counted by
-   [assumption_breaks] and reported.) *)
+   showed.  (The environment assumption of the theorems — [step_ok] — is not needed for the model to
+   run; the steps at which the implementation's environment broke it are counted by [breaks_from]
+   and reported.) *)
 Definition check_step (st : state) (s : cstep) : bool * state :=
   match cs_label s with
   | None =>
@@ -109,27 +109,23 @@ Definition diag (c : case) : option N :=
       then None else Some 1000%N
   end.
 
-(* steps at which the implementation's environment broke an assumption of the theorems:
-   (step_ok breaks, events_ok breaks) *)
-Fixpoint breaks_from (st : state) (l : list cstep) : N * N :=
+(* steps at which the implementation's environment broke the assumption of the theorems ([step_ok]) *)
+Fixpoint breaks_from (st : state) (l : list cstep) : N :=
   match l with
-  | [] => (0, 0)
+  | [] => 0
   | s :: r =>
       match cs_label s with
       | None => breaks_from st r
-      | Some lb =>
-          let '(a, b) := breaks_from (fst (step st lb)) r in
-          ((if step_ok st lb then a else a + 1), (if events_ok st lb then b else b + 1))
+      | Some lb => (if step_ok st lb then 0 else 1) + breaks_from (fst (step st lb)) r
       end
   end%N.
 
 (* per case: 0 when model and implementation agree, else 1 + the index of the first disagreeing step
-   (1001 = the final counters); the assumption breaks *)
-Definition report (c : case) : N * N * N :=
-  let '(a, b) := breaks_from (init (cc_cache c)) (cc_steps c) in
-  (match diag c with None => 0 | Some n => n + 1 end, a, b)%N.
+   (1001 = the final counters); the number of assumption breaks *)
+Definition report (c : case) : N * N :=
+  (match diag c with None => 0 | Some n => n + 1 end, breaks_from (init (cc_cache c)) (cc_steps c))%N.
 
-Definition reports (cs : list case) : list (N * N * N) := map report cs.
+Definition reports (cs : list case) : list (N * N) := map report cs.
 
 Definition check (c : case) : bool := match diag c with None => true | Some _ => false end.
 Definition mismatches (cs : list case) : list N := failing check cs.
